@@ -351,62 +351,54 @@ func c07Variants(w *World, wc *wireCtx, r *Report) {
 
 func c07Diagnostics(w *World, r *Report) {
 	const rule = "C07/generator-error-delivered"
-	compile := w.Cmd.Func("Compile")
-	if compile == nil {
+	d := newDriver(w)
+	if d.compile == nil {
 		r.fatal("anchor unresolved: cmd.Compile")
 		return
 	}
+	// every call in Compile (or a cmd helper it is split into) that runs a generator - through a function value or Generate itself -
+	// and yields an error: a non-nil error must become Compile's error
 	n := 0
-	forEachInstr(compile, func(b *ssa.BasicBlock, ins ssa.Instruction) {
-		c, ok := ins.(*ssa.Call)
-		if !ok || c.Call.StaticCallee() != nil || c.Call.IsInvoke() {
-			return
-		}
-		if _, isB := c.Call.Value.(*ssa.Builtin); isB {
-			return
-		}
-		if c.Type().String() == "()" {
-			return
-		}
-		var errV ssa.Value
-		for _, ref := range *c.Referrers() {
-			if e, ok := ref.(*ssa.Extract); ok && isErrorType(e.Type()) {
-				errV = e
+	for _, fn := range d.sortedFns() {
+		cnt := 0
+		forEachInstr(fn, func(b *ssa.BasicBlock, ins ssa.Instruction) {
+			c, ok := ins.(*ssa.Call)
+			if !ok {
+				return
 			}
-		}
-		if errV == nil {
-			return
-		}
-		n++
-		delivered := false
-		for _, bb := range compile.Blocks {
-			cond := branchCond(bb)
-			if cond == nil {
-				continue
+			isGen := false
+			switch {
+			case c.Call.IsInvoke():
+				isGen = c.Call.Method.Name() == "Generate"
+			case c.Call.StaticCallee() != nil:
+				f := c.Call.StaticCallee()
+				isGen = f.Pkg == w.Parser && f.Name() == "Generate"
+			default:
+				_, isB := c.Call.Value.(*ssa.Builtin)
+				isGen = !isB
 			}
-			x, nn, ok := nilTest(cond)
-			if !ok || !sameValue(x, errV) {
-				continue
+			if !isGen {
+				return
 			}
-			for _, b3 := range compile.Blocks {
-				if !edgeDominates(bb, nn, b3) {
-					continue
-				}
-				for _, i3 := range b3.Instrs {
-					if ret, ok := i3.(*ssa.Return); ok && len(ret.Results) == 1 && !isNilConst(ret.Results[0]) {
-						delivered = true
-					}
-				}
+			errV := errResultOf(c)
+			if errV == nil {
+				return
 			}
-		}
-		if delivered {
-			r.pass(rule, "a generator's error becomes Compile's error", w.instrPos(ins), "")
-		} else {
-			r.fail(rule, "a generator's error becomes Compile's error", w.instrPos(ins), "the error returned by a generator is dropped: an unsupported construct cannot be reported")
-		}
-	})
+			n++
+			cnt++
+			key := fmt.Sprintf("a generator's error becomes Compile's error (%s)", fnKey(fn))
+			if cnt > 1 {
+				key += fmt.Sprintf("#%d", cnt)
+			}
+			if d.delivered(fn, errV, 0) {
+				r.pass(rule, key, w.instrPos(ins), "")
+			} else {
+				r.fail(rule, key, w.instrPos(ins), "the error returned by a generator is dropped: an unsupported construct cannot be reported")
+			}
+		})
+	}
 	if n == 0 {
-		r.fail(rule, "a generator's error becomes Compile's error", w.pos(compile.Pos()), "no generator call with an error result found in cmd.Compile")
+		r.fail(rule, "a generator's error becomes Compile's error", w.pos(d.compile.Pos()), "no generator call with an error result found under cmd.Compile")
 	}
 }
 
